@@ -1,4 +1,5 @@
-"""group Tco: nfc/llcp/tco.py window / sequence / MIU arithmetic -> Model/Dlc.lean, Model/Collect.lean, Model/Sap.lean (C05, C10)
+"""group Tco: nfc/llcp/tco.py window / sequence / MIU arithmetic -> Model/Dlc.lean, Model/Collect.lean, Model/Sap.lean (C05, C10; the
+connection-less socket checks also C17)
 
 Cuts common to all entries: the objects (`self`, `rcvd_pdu`, `send_pdu`) are not modelled, every attribute the
 translated statements read is a parameter (`binds`); queues, condition variables and the PDU constructors are
@@ -177,8 +178,9 @@ BRIDGE = {
         "est_nr_bridge", "est_check_bridge", "gen_enqEst_i", "dlc_recv_confs_bridge", "dequeue_fit_bridge",
         "enqueue_room_bridge", "dlc_setsockopt_bridge", "sendack_bridge", "deq_necessary_bridge",
         "poll_bridge", "dlc_listen_bridge", "dlc_connect_state_bridge", "dlc_accept_state_bridge",
-        "dlc_recv_state_bridge", "gen_raw_dequeue_always")],
-    "properties": ["C05", "C10"],
+        "dlc_recv_state_bridge", "gen_raw_dequeue_always", "gen_window", "gen_wakeup_rechecks",
+        "gen_ldl_enqueue_sap", "gen_ldl_sendto_saplink", "gen_appendRecv")],
+    "properties": ["C05", "C10", "C17"],
 }
 
 
